@@ -4,25 +4,27 @@
 \* every token up to the first invalid one.
 EXTENDS Lexer, Json
 CONSTANTS FAMILY, NMAX
-Chars == CASE FAMILY = "names"    -> {"a", "A", "_", "1", "+", ".", " ", "(", ",", "!"}
-           [] FAMILY = "numbers"  -> {"0", "1", ".", "e", "+", "'", "x", "b", "a", " ", "\\"}
-           [] FAMILY = "quotes"   -> {"'", "a", "\\", "n", "x", "1", "\n", " ", "\"", "7"}
-           [] FAMILY = "comments" -> {"/", "*", "%", "\n", "a", " ", ".", "("}
-           \* characters outside ASCII: a letter of each kind, a digit of another script (no digit for the token syntax), a space, a
-           \* mathematical operator (graphic), a currency sign (no class at all)
-           \* (no character of U+0080..U+00FF in an ENUMERATED alphabet: when TLC's state queue spills to disk - the thorough tier - such a
-           \*  character comes back as U+FFxx; 2-byte characters are taken from U+0100 upwards)
-           [] FAMILY = "unicode"  -> {"a", "1", "ā", "Ω", "日", "٣", " ", "∀", "€", "'", " ", "."}
-VARIABLES txt, out, done
-Init == txt \in UNION { [1..k -> Chars] : k \in 0..NMAX } /\ out = <<>> /\ done = FALSE
-Next == ~done /\ done' = TRUE /\ out' = Lex(txt) /\ UNCHANGED txt
-Spec == Init /\ [][Next]_<<txt, out, done>>
+\* The state holds INDICES into the family's characters, never the characters: TLC's state queue writes the characters of a string
+\* as single bytes when it spills to disk (more than a few thousand states waiting), and a character outside ASCII comes back as
+\* another one (é as U+FFE9, U+2003 as U+0003). The text and its tokens are computed when the case is printed.
+Chars == CASE FAMILY = "names"    -> <<"a", "A", "_", "1", "+", ".", " ", "(", ",", "!">>
+           [] FAMILY = "numbers"  -> <<"0", "1", ".", "e", "+", "'", "x", "b", "a", " ", "\\">>
+           [] FAMILY = "quotes"   -> <<"'", "a", "\\", "n", "x", "1", "\n", " ", "\"", "7">>
+           [] FAMILY = "comments" -> <<"/", "*", "%", "\n", "a", " ", ".", "(">>
+           \* characters outside ASCII: letters of each kind (2 and 3 bytes), a digit of another script (no digit for the token syntax),
+           \* spaces, a mathematical operator (graphic), a currency sign (no class at all)
+           [] FAMILY = "unicode"  -> <<"a", "1", "é", "ā", "Ω", "日", "٣", " ", "∀", "€", "'", " ", ".">>
+VARIABLES ix, done
+Init == ix \in UNION { [1..k -> 1..Len(Chars)] : k \in 0..NMAX } /\ done = FALSE
+Next == ~done /\ done' = TRUE /\ UNCHANGED ix
+Spec == Init /\ [][Next]_<<ix, done>>
+Txt == [i \in 1..Len(ix) |-> Chars[ix[i]]]
 \* U1: the tokens lie in the text in order and without overlap, and only layout text lies between them
 RECURSIVE Concat(_)
 Concat(ts) == IF ts = <<>> THEN "" ELSE ts[1].v \o Concat(Tail(ts))
 RECURSIVE Flat(_)
 Flat(s) == IF s = <<>> THEN "" ELSE s[1] \o Flat(Tail(s))
-Emit == done => PrintT("CASE " \o ToJson([txt |-> txt, toks |-> out]))
+Emit == done => PrintT("CASE " \o ToJson([txt |-> Txt, toks |-> Lex(Txt)]))
 
 a == "a"
 ASSUME Lex(<<"a", "1", " ", "A", "_">>) = << [k |-> "letter digit", v |-> "a1"], [k |-> "variable", v |-> "A_"] >>
